@@ -17,7 +17,7 @@ TEXT = {
     "C11": "proof that the openers_bottom search bounds never change the result of process-emphasis (abstract lists of any length, and on the transcription of processEmphasis); full statement proved end to end on a vertical slice (C11_slice2: lines of any length over letters, digits, spaces, '*', '_', most ASCII punctuation, Unicode white space, Unicode punctuation and non-ASCII letters from explicit families parse to exactly the forest the spec's delimiter-run procedure denotes); flanking flags and tokenisation tied by exhaustive correspondence up to a length bound; oracle = independent transcription of the spec procedure without the bound",
     "C12": "partial proof: closure clause for every input and matcher (C12_closure), Extract = first-wins fold in source order; label normalisation = the CommonMark definition for labels in one span, adjacent spans, and spans with gaps (container prefixes, Indent entries) under the entry conditions the block layer establishes (label_norm_spans); end to end on a slice (C12_refslice); case-folding table generated from x/text and judged against an independent normaliser",
     "C13": "full proof on the model: C13_full = Props.C13_statement (for every input every block and inline node has a valid span and the shape of its construct); tie: (kind, span) correspondence plus the shape oracle and the formal statement evaluated on the implementation's trees",
-    "C14": "proof on the model: CR clause through the whole pipeline for every input (parseFull_cr, renderDoc_cr: rendered HTML equal up to LF/CR); at the block layer: padding clause for every input (parseBlocks_blank_prefix), final-newline clause for every input (parseBlocks_final_newline, exact tree relation), CRLF clause for every input without '[' and for every input below the 999-step label limit (parseBlocks_crlf_nobracket, parseBlocks_crlf_limit); beyond that the CRLF statement is false (finding D24 and its tab variant, witnesses proved); tie and the rendering level of the other clauses: correspondence on the variants plus the oracle",
+    "C14": "proof on the model through the whole pipeline: CR clause for every input (parseFull_cr, renderDoc_cr); final-newline clause for every input not ending in '>' (parseFull_final_newline, renderDoc_final_newline: rendering equal up to inserted LF; equal in safe mode unless the input ends in two spaces); CRLF clause for every input below the 999-step label limit (parseFull_crlf_limit, renderDoc_crlf) and at the block layer for every input without '['; padding clause at the block layer for every input; beyond the label limit the CRLF statement is false (finding D24 and its tab variant, witnesses proved); tie: correspondence on the variants plus the oracle",
     "C15": "full proof on the model: every recognizer equals (or is sound and complete for) its declarative definition on every line, classifiers over all 256 bytes, e-mail grammar, URI alphabet / well-formed escapes / idempotence; classifier bodies and constants are regenerated from /repo's source on every run (TieClassify.v, TieBlocks.v, TieRender.v); recognizers tied by exhaustive correspondence through the verif hook",
     "C16": "partial proof at the block layer for inputs without NUL: every root for which the executable predicate covered holds re-parses alone to itself (ReparseAll2.C16_blocks2_partial; covered excludes only definition roots, roots cut while a paragraph beginning with '[' is open, and roots after a cut inside a paragraph holding definitions, the last lifted by a computed resync check); end to end on a slice of one-line paragraphs; the excluded roots and inputs with NUL: re-parse oracle on the implementation (also under one-byte reads) plus tree correspondence",
     "C17": "full proof on the model: first clause for whole documents (C17_only_lt_escaped); second clause for every input and every prefix-closed predicate against a WHATWG data-state tokenizer fragment (C17_no_rejected_start_renderDoc, no side condition); tie: model renderer+filter on the implementation's tree, filterRaw through the hook; oracle uses x/net/html's tokenizer",
